@@ -418,6 +418,8 @@ def op_try_from_iter(fns, src, nmax, name=None, boxed=False):
                 if val.variant == 'Ok':
                     oarr = val.fields[0]
                     if isinstance(oarr, BoxVal):
+                        if not isinstance(oarr.ptr, BlockPtr):
+                            raise NotImplementedError('returned Box does not own a modelled heap block')
                         oarr = oarr.ptr.block.arr
                     ex.require(s2, z3.Implies(inA, ex.stat(s2, oarr) == LIVE), 'Ok array has a slot that is not initialised', 'end')
                     ex.require(s2, C == N, 'Ok although the source did not yield exactly N items', 'end')
